@@ -454,7 +454,7 @@ def p_C04(ctx):
     # mutable iteration in EVERY call order (not only forwards / backwards): all call sequences of the mutable iterators
     # through every window, every yielded reference written through, whole root compared (SeqIter.tla / IterMC.tla)
     mk = ["rows_mut", "col_mut", "cells_mut", "into_mut"]
-    si = iter_tlc(ctx, "mutiter-sequences", mk, [23, 32] if ctx.quick else [13, 31, 23, 32, 33], rkinds=("owned", "slice_m"), depth=1,
+    si = iter_tlc(ctx, "mutiter-sequences", mk, [23] if ctx.quick else [13, 31, 23, 32, 33], rkinds=("owned", "slice_m"), depth=1,
                   bigs=(BIG_MAX,), seqmode=True, maxcalls=2 if ctx.quick else 3, workers=8 if ctx.quick else 12)
     seli = os.path.join(ctx.outdir, "mutiter.sel.ndjson")
     core.filter_cases(si.cases_path, seli, lambda c: len(c["stack"]) > 0)
@@ -634,7 +634,7 @@ def iter_pipeline(ctx, kinds, what):
                   bigs=(BIG_MAX,), seqmode=True, maxcalls=2 if q else 3, workers=8 if q else 12)
     ctx.count_nontrivial(sq.cases_path, iter_key)
     ctx.sample_from(sq.cases_path, 2)
-    for prof, elem in [("dev", "u32"), ("release", "u32")]:
+    for prof, elem in ([("dev", "u32")] if q else [("dev", "u32"), ("release", "u32")]):
         ctx.replay(sq.cases_path, attr_iter, profile=prof, elem=elem, label="sequences")
     w = iter_tlc(ctx, "walks", kinds, [23, 32, 33, 34, 43], rkinds=("owned", "slice_m"), depth=1, bigs=(BIG_MAX,), maxcalls=6,
                  walk=300 if q else 5000)
